@@ -13,6 +13,7 @@ import math
 
 import mpmath
 import numpy as np
+import vector  # noqa: E402 (bound by mc.env before the property modules are imported)
 from mpmath import mpf
 
 from .. import alphabet as A
@@ -70,6 +71,8 @@ def shards(tier):
     for dim in (2, 3, 4):
         for sysA in L.SYSTEMS[dim]:
             out.append({"kind": "derived", "dim": dim, "sys": list(sysA)})
+    for sysA in L.SYSTEMS[3]:
+        out.append({"kind": "sweep", "dim": 3, "sys": list(sysA)})
     return out
 
 
@@ -295,6 +298,62 @@ def derived_checks(res, v: Vec, system, tier):
                 _viol(res, "raises", f"{oname}->accessor", system, bname, f"after {oname}: {type(e).__name__}: {e}", case)
 
 
+def direction_sweep(res, sysA, tier):
+    """Exactly parallel and antiparallel pairs over a grid of 2000 directions (all sign patterns, both hemispheres), as NumPy arrays,
+    for every storage of the second operand: deltaangle stays a number inside [0, pi] (0 / pi up to rounding), deltaphi inside
+    [-pi, pi], and the predicates answer accordingly.  A clamp that is missing shows only for the few percent of directions where
+    the rounded cosine overshoots +-1."""
+    K, J = (40, 50) if tier != "thorough" else (80, 100)
+    th = (np.arange(K) + 0.5) * (math.pi / K)
+    ph = (np.arange(J) + 0.37) * (2 * math.pi / J) - math.pi
+    T, P = np.meshgrid(th, ph, indexing="ij")
+    x, y, z = (1.5 * np.sin(T) * np.cos(P)).ravel(), (1.5 * np.sin(T) * np.sin(P)).ravel(), (1.5 * np.cos(T)).ravel()
+
+    def store(system, cx, cy, cz):
+        cols = {}
+        if system[0] == "xy":
+            cols["x"], cols["y"] = cx, cy
+        else:
+            cols["rho"], cols["phi"] = np.hypot(cx, cy), np.arctan2(cy, cx)
+        rho = np.hypot(cx, cy)
+        if system[1] == "z":
+            cols["z"] = cz
+        elif system[1] == "theta":
+            cols["theta"] = np.arctan2(rho, cz)
+        else:
+            cols["eta"] = np.arcsinh(cz / rho)
+        return vector.array(cols)
+
+    a = store(sysA, x, y, z)
+    for sysB in L.SYSTEMS[3]:
+        for kind, f in (("parallel", 2.0), ("antiparallel", -2.0)):
+            b = store(sysB, f * x, f * y, f * z)
+            res.states += 1
+            res.transitions += 4
+            case = {"kind": "sweep", "sys": list(sysA), "sysB": list(sysB), "pair": kind}
+            cls = f"sweep|{kind}|{L.sysname(sysA)}|{L.sysname(sysB)}"
+            try:
+                da = np.asarray(a.deltaangle(b), dtype=np.float64)
+                dp = np.asarray(a.deltaphi(b), dtype=np.float64)
+                par, anti = np.asarray(a.is_parallel(b, 1e-5)), np.asarray(a.is_antiparallel(b, 1e-5))
+            except Exception as e:  # noqa: BLE001
+                res.violation(cls + "|raises", f"{type(e).__name__}: {str(e)[:150]}", case)
+                continue
+            want = 0.0 if kind == "parallel" else math.pi
+            checks = [("deltaangle_is_a_number", ~np.isnan(da)), ("deltaangle_in_[0,pi]", (da >= 0) & (da <= math.pi) | np.isnan(da)), ("deltaangle_value", (np.abs(da - want) <= 1e-6) | np.isnan(da)),
+                      ("deltaphi_in_[-pi,pi]", (dp >= -math.pi) & (dp <= math.pi)), ("is_parallel", par == (kind == "parallel")), ("is_antiparallel", anti == (kind == "antiparallel"))]
+            for cname, ok in checks:
+                res.traces += 1
+                res.evaluations += 1
+                bad = np.flatnonzero(~ok)
+                if len(bad):
+                    i = int(bad[0])
+                    res.violation(f"{cls}|{cname}", f"{len(bad)} of {len(da)} {kind} pairs fail {cname}; e.g. direction theta={float(T.ravel()[i])!r}, phi={float(P.ravel()[i])!r}: deltaangle={float(da[i])!r}, deltaphi={float(dp[i])!r}, is_parallel={bool(par[i])}, is_antiparallel={bool(anti[i])}", case)
+                else:
+                    res.nontrivial += 1
+    res.sample({"kind": "sweep", "sys": list(sysA), "directions": int(K * J)})
+
+
 def _angle_pairs(a: Vec, tier):
     """Second operands with cosine in {+-1, 0, +-(1-2^-20), +-2^-20} relative to `a`, plus generic."""
     c = a.comps[:3] if a.dim >= 3 else a.comps
@@ -440,6 +499,8 @@ def run_shard(shard, tier):
         for v in vs:
             derived_checks(res, v, system, tier)
         res.sample({"kind": "derived", "sys": list(system), "operands": len(vs), "operations": [n for n, _ in _derived_ops(dim, system)]})
+    elif shard["kind"] == "sweep":
+        direction_sweep(res, system, tier)
     elif shard["kind"] == "binary":
         vs = [v for v in _vectors(dim, tier) if not v.has("near_axis")]
         if tier != "thorough":
@@ -460,6 +521,8 @@ def replay(case):
         tags = {"wildphi"} if str(case.get("name", "")).startswith("wild") else set()
         v = Vec(case.get("name", "v"), case["v"], tags, phi_turns={"wild+": 1, "wild-": -1}.get(case.get("name"), 0))
         derived_checks(res, v, tuple(case["sys"]), "thorough")
+    elif case["kind"] == "sweep":
+        direction_sweep(res, tuple(case["sys"]), "quick")
     elif case["kind"] == "binary":
         a = Vec("a", case["a"], set())
         binary_checks(res, a, tuple(case["sysA"]), "thorough")
